@@ -111,29 +111,28 @@ def main():
         tests_ok = not missing
         out["ran"]["test_suite_with_change"] = {"cmd": cmd, "summary": o.strip().splitlines()[-1], "stable_pass_missing": missing[:5]}
         os.remove(junit)
-    # 3. checks on /repo with the patch applied
+    # 3. all checks (quick tier) on the scratch worktree, where the change is applied; /repo itself and the committed
+    #    evidence are not touched (same code path as the registered commands, with --repo and VERIF_NO_EVIDENCE=1)
     patch = os.path.join(seed, "patch.diff")
-    rc, o = run(["git", "-C", "/repo", "apply", "--check", patch])
     verdicts = {}
-    if rc != 0:
-        out["ran"]["apply"] = "patch does not apply to /repo: " + o[:200]
-    else:
-        run(["git", "-C", "/repo", "apply", patch])
-        try:
-            for i in range(1, 21):
-                c = f"C{i:02d}"
-                rc2, o2 = run([os.path.join(VERIF, "check"), c, "--tier", "quick"], cwd=VERIF)
-                keys = [l.split(" instance ")[1].split(": ")[0] for l in o2.splitlines() if " instance " in l and l.startswith("  ")]
-                verdicts[c] = {"exit": rc2, "instances": keys[:6]}
-        finally:
-            run(["git", "-C", "/repo", "checkout", "--", "."])
-    rc, st = run(["git", "-C", "/repo", "status", "--short"])
-    assert not st.strip(), "repo not clean after undo: " + st
+    from concurrent.futures import ThreadPoolExecutor
+    env = dict(os.environ, VERIF_NO_EVIDENCE="1")
+
+    def one(c):
+        p_ = subprocess.run([os.path.join(VERIF, "check"), c, "--tier", "quick", "--repo", wt], cwd=VERIF, env=env,
+                            capture_output=True, text=True)
+        o2 = p_.stdout + p_.stderr
+        keys = [l.split(" instance ")[1].split(": ")[0] for l in o2.splitlines() if " instance " in l and l.startswith("  ")]
+        errs = [l for l in o2.splitlines() if l.startswith("ANALYSIS-ERROR")]
+        return c, {"exit": p_.returncode, "instances": keys[:6], "errors": errs[:2]}
+    with ThreadPoolExecutor(8) as ex:
+        verdicts = dict(ex.map(one, [f"C{i:02d}" for i in range(1, 21)]))
     caught = sorted(c for c, v in verdicts.items() if v["exit"] == 1)
     errors = sorted(c for c, v in verdicts.items() if v["exit"] == 2)
     out["checks"] = {"reporting_violation": caught, "analysis_error": errors,
                      "target_property_reports": pid in caught,
-                     "instances": {c: verdicts[c]["instances"] for c in caught}}
+                     "instances": {c: verdicts[c]["instances"] for c in caught},
+                     "errors": {c: verdicts[c]["errors"] for c in errors}}
     out["confirmed"] = {"demo_fails_with_and_passes_without": demo_ok, "test_suite_passes_with_change": tests_ok}
     # 4. keep
     dst = os.path.join(VERIF, "seeded", sid)
